@@ -5,7 +5,7 @@ From Coq Require Import String.
 From Coq Require Import List NArith.
 From Coq.Strings Require Import Byte.
 From Model Require Import Bytes Parser FrameParser Response Handshake Conn.
-From Proofs Require Import HandshakeFacts GenTie.
+From Proofs Require Import HandshakeFacts GenTie ShapeFacts ReadyFacts DeliveryFacts RejectFacts.
 Import ListNotations.
 Open Scope N_scope.
 
@@ -31,6 +31,16 @@ Print Assumptions C10_decision_refuted.
 Theorem C10_rejected_otherwise : forall accept r,
   (exists p d, on_response accept r = HReady p d) \/ on_response accept r = HRejected.
 Proof. exact on_response_cases. Qed.
+
+(* a rejected reply, seen at the level of the whole connection attempt: for ANY application strategy (sending, closing or
+   abandoning at any event), any masking keys and write faults, any further reads or failures afterwards -- when the first
+   read delivers a complete reply block that the decision above rejects, no event of the run is Ready, Text, Binary,
+   Ping, Pong, Poll, Closing, Closed or Unresponsive (the socket is closed on every exit: C09/C13) *)
+Theorem C10_rejected_no_ready_no_messages : forall cf app keys wf zt ct dt0 reply rest,
+  reply_block reply -> on_response (c_accept cf) (parse_response reply) = HRejected ->
+  Forall quiet (evs (k_tr (run cf app (init keys wf zt ct) CnOk (StRead dt0 (RData reply) :: rest)))).
+Proof. exact rejected_run. Qed.
+Print Assumptions C10_rejected_no_ready_no_messages.
 
 Theorem C10_header_block_limit : forall d, 16384 < N.of_nat (length d) ->
   (forall i, find_sep CRLFCRLF d = Some i -> 16384 < N.of_nat (i + 4)) ->
